@@ -323,6 +323,12 @@ class _Case:
         self.nreg = 0
         self.callname = {}       # thread ident -> name of the last glue:call checkpoint
         self.untimely = []
+        # observed counterpart of the model's ghost flags (hypothesis no_removal_since_last_scan of C17_timely):
+        # a module was removed / replaced since the snapshot the cache value stems from / since the snapshot of
+        # the scan in progress.  Set by every removal (history op or glue side effect), reset at glue:locked,
+        # copied at glue:scanned.
+        self.dirty_cache = False
+        self.dirty_snap = False
         self.in_op = None        # thread id (model) of the sequential extraction op in progress
         self.enters = 0          # calls of add_glue_as_needed seen in that op
         self.escaped = []        # types of exceptions (other than the glue's own) that escaped an extraction
@@ -360,8 +366,13 @@ class _Case:
     def env_op(self, op):
         sysm = self.env.sys.modules
         if op[0] == "I":
+            old = sysm.get(NNAME % op[1], self)
+            if old is not self and old is not self.objs[op[2]]:
+                self.dirty_cache = self.dirty_snap = True       # replacement = removal + insertion
             sysm[NNAME % op[1]] = self.objs[op[2]]
         elif op[0] == "R":
+            if (NNAME % op[1]) in sysm:
+                self.dirty_cache = self.dirty_snap = True
             sysm.pop(NNAME % op[1], None)
         elif op[0] == "G":
             n = op[1]
@@ -396,6 +407,10 @@ class _Case:
             self.enters += 1
             if self.enters >= 2:
                 self.log.append(["R", self.in_op, True])
+        if tag == "glue:locked":
+            self.dirty_snap = False
+        elif tag == "glue:scanned":
+            self.dirty_cache = self.dirty_snap
         if tag == "glue:call":
             nm = info.get("name", "")
             self.callname[self.env.threading.get_ident()] = int(nm[6:]) if nm.startswith("_c17_m") else -1
@@ -435,6 +450,10 @@ class _Case:
         return exp
 
     def check_timely(self, exp, xid):
+        exp, dirty0 = exp
+        # F4, semantically: the cache value the fast path compares with stems from a snapshot since which a
+        # module was removed or replaced (however that came about: history op, glue side effect, other thread)
+        f4 = bool(dirty0 or self.dirty_cache or self.dirty_snap)
         for kind, ident, n in exp:
             cur = self.env.sys.modules.get(NNAME % n, self)
             if kind == "M" and (cur is self or self.objid.get(id(cur)) != ident):
@@ -447,7 +466,7 @@ class _Case:
                 ok = any(e[0] in ("B", "I") and e[2] == n for e in self.log) or \
                     any(e[0] == "M" and e[2] == n for e in self.log)  # built-in legitimately dropped
             if not ok:
-                self.untimely.append([xid, kind, ident, n])
+                self.untimely.append([xid, kind, ident, n, f4])
 
     def extraction(self, ep=None):
         """one extraction through the public entry point `ep` (default: the descriptor's `via`)"""
@@ -490,7 +509,7 @@ def _run_seq(env, case, desc):
         if op[0] == "X":
             ep = op[1] if len(op) > 1 else None
             nexp = ENTRY_POINTS[ep] if ep else 1
-            exp = case.expected_at_start()
+            exp = (case.expected_at_start(), case.dirty_cache or case.dirty_snap)
             ok = True
             case.in_op, case.enters = 0, 0
             try:
@@ -620,7 +639,7 @@ def _run_conc(env, case, desc):
     def run_thread(t):
         if status[t][0] in ("idle", "done"):
             remaining[t] -= 1
-            started_exp[t] = case.expected_at_start()
+            started_exp[t] = (case.expected_at_start(), case.dirty_cache or case.dirty_snap)
             cmd[t] = "extract"
         go[t].release()
         wait_report(t)
@@ -777,8 +796,9 @@ def _oracle(desc, obs):
                 out.setdefault("warn", "an exception escaped from the extraction (event %d) without a BaseException glue" % i)
     if obs.get("escaped"):
         out["warn"] = "extract() raised %s: the scan was abandoned (a sys.modules entry must never make extraction fail)" % obs["escaped"][0]
-    if obs["untimely"]:
-        x = obs["untimely"][0]
+    unt = obs["untimely"] if desc.get("only") == "timely" else [x for x in obs["untimely"] if not (len(x) > 4 and x[4])]
+    if unt:
+        x = unt[0]
         out["timely"] = ("glue %s of module name %d was present and pending when extraction %s started but had not run "
                          "when it returned" % (x[1], x[3], x[0]))
     return out
